@@ -24,7 +24,7 @@ import (
 
 type boardStats struct {
 	FollowerReads, ConcurrentReads, ContentsCompared                                                int
-	SameHandleHistories                                                                             int
+	SameHandleHistories, SizeTargetsHit                                                             int
 	Ops, Histories, Sends, Reads, MaxWriters, DistinctSizes, ProcessHistories, DefaultLockHistories int
 	OutcomeHist                                                                                     map[string]int
 	Monitors                                                                                        []string
@@ -583,6 +583,89 @@ func runBoardDiff(outDir string, seed int64, tier string) {
 				}
 			}
 		}()
+		// file sizes that a chunked reader would treat specially: the log is brought to EXACTLY k * 4 KiB / 32 KiB / 64 KiB / 1 MiB by a
+		// padded message, then written to again (alternately through two handles); every entry must carry its position
+		if h%4 == 1 {
+			func() {
+				path4 := filepath.Join(dir, "sized.txt")
+				lock4 := filepath.Join(dir, "sized.lock")
+				var hs2 []storage.Storage
+				for k := 0; k < 2; k++ {
+					fsx, err := file_storage.NewFileStorage(path4, lock4)
+					if err != nil {
+						return
+					}
+					defer fsx.Close()
+					hs2 = append(hs2, fsx)
+				}
+				targets := []int64{4096, 32768, 65536, 2 * 65536}
+				if tier == "thorough" {
+					targets = append(targets, 8192, 3*32768, 1<<20, (1<<20)+32768)
+				}
+				sent := 0
+				send := func(m storage.Message) bool {
+					if err := hs2[sent%2].Send(m); err != nil {
+						st.Monitors = append(st.Monitors, fmt.Sprintf("C16 send_failed: sized history %d: %v", h, err))
+						return false
+					}
+					sent++
+					return true
+				}
+				for _, target := range targets {
+					if !send(storage.Message{DkgRoundID: "sized", Event: fmt.Sprintf("s%d-%d", h, sent), Data: bytes.Repeat([]byte{'z'}, 10+rng.Intn(200))}) {
+						return
+					}
+					fi, err := os.Stat(path4)
+					if err != nil || fi.Size() >= target-200 {
+						continue
+					}
+					need := int(target - fi.Size()) // bytes of the next line, newline included
+					if need > 1<<20-1 {
+						// not in one line the reader accepts: fill up with lines of 512 KiB first
+						for need > 1<<20-1 {
+							if !send(msgOfLineLen(512*1024-1, fmt.Sprintf("w7-%d", sent), len(fmt.Sprint(sent)))) {
+								return
+							}
+							fi, _ = os.Stat(path4)
+							need = int(target - fi.Size())
+						}
+					}
+					if !send(msgOfLineLen(need-1, fmt.Sprintf("w7-%d", sent), len(fmt.Sprint(sent)))) {
+						return
+					}
+					if fi2, err := os.Stat(path4); err == nil && fi2.Size() == target {
+						st.SizeTargetsHit++
+					}
+					// the write that follows a log of exactly that size
+					if !send(storage.Message{DkgRoundID: "sized", Event: fmt.Sprintf("s%d-%d", h, sent), Data: []byte("after")}) {
+						return
+					}
+				}
+				es, err := readBoard(path4)
+				if err != nil {
+					st.Monitors = append(st.Monitors, fmt.Sprintf("C16 unreadable_file: sized history %d: %v", h, err))
+					return
+				}
+				if len(es) != sent {
+					st.Monitors = append(st.Monitors, fmt.Sprintf("C16 exactly_once: sized history %d: %d messages sent, %d lines in the log", h, sent, len(es)))
+				}
+				var total int64
+				for pos, e := range es {
+					st.Sends++
+					if int(e.Offset) != pos {
+						st.Monitors = append(st.Monitors, fmt.Sprintf("C16 offset_eq_position: sized history %d: the entry at position %d, appended when the log was exactly %d bytes long, carries offset %d", h, pos, total, e.Offset))
+					}
+					total += int64(e.Size) + 1
+				}
+				for k := 0; k <= len(es); k += 1 + len(es)/7 {
+					msgs, err := hs2[0].GetMessages(uint64(k))
+					st.Reads++
+					if err != nil || len(msgs) != len(es)-k {
+						st.Monitors = append(st.Monitors, fmt.Sprintf("C16 read_suffix: sized history %d: GetMessages(%d) returned %d entries (err %v), the log has %d from there on", h, k, len(msgs), err, len(es)-k))
+					}
+				}
+			}()
+		}
 		// a node's handle: the poller reads through the very handle the node's own requests send through (one FileStorage
 		// per node process: tick() calls GetMessages, StartDKG / ProposeSignMessages / executeOperation / SendMessage call Send),
 		// while another node writes through its own handle. Every message must still get the offset of its position, and every
